@@ -289,7 +289,7 @@ func TestC27(t *testing.T) {
 		ID:   "C27",
 		Rule: "pairs of texts over a 6-line alphabet (incl. the empty line), 0..40 lines (up to ~110 with long unique-line runs that trigger the >14-line elision), generated as base+edit script (inserted/deleted runs, replaced lines) or as unrelated texts, with trailing-newline variants; in a quarter of the pairs half of the lines are replaced by near-equal ones (trailing CR, trailing/leading blank, upper case; sometimes one side entirely CRLF); plus exhaustive enumeration of all pairs of texts with <=4 lines over 3 symbols. Oracle: quadratic LCS and a unified-diff applier. Non-trivial: texts differ, share at least one line (LCS>0) and need >=2 edits (or contain an elided run); distinct by the text pair.",
 		Assume: []string{"a hunk with zero left lines is positioned after the stated line (unified-diff convention)", "the right-hand line number of each hunk is checked too (it is part of 'hunks apply ... to produce the second')"},
-		Quick: 100000, Thorough: 1000000,
+		Quick: 100000, Thorough: 6000000,
 		Gen:   c27Gen,
 		Check: c27Check,
 		Pre: func(r *ev.Recorder, run func(c c27Case) *Failure) *Failure {
